@@ -392,7 +392,8 @@ def check(ctx):
 
 
 MUTANTS = [
-    M("Pool branch passes another quantile count", [(F_QUAN, "                        fit_feature, X=X[self.quantitative_features], q=self.q, str_nan=self.str_nan\n", "                        fit_feature, X=X[self.quantitative_features], q=self.q + 1, str_nan=self.str_nan\n")], "R-seq-par-agree", "ContinuousDiscretizer.fit", quick=True),
+    M("Pool branch passes another quantile count", [(F_QUAN, "                        q=self.q,\n", "                        q=self.q + 1,\n")], "R-seq-par-agree", "ContinuousDiscretizer.fit", quick=True),
+    M("Pool branch fits on the caller's frame, sequential branch on the validated copy", [(F_QUAN, "                        X=x_copy[self.quantitative_features],\n", "                        X=X[self.quantitative_features],\n")], "R-seq-par-agree", "ContinuousDiscretizer.fit"),
     M("Pool branch transforms with the raw orders argument swapped", [(F_BASE, "                            feature,\n                            X[feature],\n                            self.values_orders,\n                            self.str_nan,\n                            self.labels_per_values,\n                            x_len,\n                        ),\n                    )", "                            feature,\n                            X[feature],\n                            self.values_orders,\n                            self.str_default,\n                            self.labels_per_values,\n                            x_len,\n                        ),\n                    )")], "R-seq-par-agree", "_transform_quantitative"),
     M("Pool branch of StringDiscretizer iterates another list", [(F_TYPE, "                        (feature, x_copy[feature], self.str_nan),\n                    )\n                    for feature in self.features", "                        (feature, x_copy[feature], self.str_nan),\n                    )\n                    for feature in self.qualitative_features")], "R-seq-par-agree", "StringDiscretizer.fit"),
     M("Pool branch reads the caller's frame instead of the copy", [(F_TYPE, "                        (feature, x_copy[feature], self.str_nan),", "                        (feature, X[feature], self.str_nan),")], "R-seq-par-agree", "StringDiscretizer.fit"),
@@ -406,9 +407,9 @@ MUTANTS = [
     M("labels of one feature read with another feature's key", [(F_BASE, "    # feature's labels associated to each quantile\n    feature_values = values_orders[feature]\n", "    # feature's labels associated to each quantile\n    feature_values = values_orders[sorted(values_orders)[0]]\n")], "R-key-local", "transform_quantitative_feature"),
 ]
 BENIGN = [
-    B("per-feature call factored into one partial", [(F_QUAN, "        # storing ordering\n        all_orders = []\n", "        # storing ordering\n        all_orders = []\n        fit_one = partial(fit_feature, X=X[self.quantitative_features], q=self.q, str_nan=self.str_nan)\n"), (F_QUAN, "                fit_feature(\n                    feature, X=X[self.quantitative_features], q=self.q, str_nan=self.str_nan\n                )\n", "                fit_one(feature)\n"), (F_QUAN, "                    partial(\n                        fit_feature, X=X[self.quantitative_features], q=self.q, str_nan=self.str_nan\n                    ),\n", "                    fit_one,\n")]),
-    B("sequential branch uses keywords in another order", [(F_QUAN, "                    feature, X=X[self.quantitative_features], q=self.q, str_nan=self.str_nan\n", "                    feature, str_nan=self.str_nan, q=self.q, X=X[self.quantitative_features]\n")]),
-    B("sequential branch passes positionally", [(F_QUAN, "                    feature, X=X[self.quantitative_features], q=self.q, str_nan=self.str_nan\n", "                    feature, X[self.quantitative_features], self.q, self.str_nan\n")]),
+    B("per-feature call factored into one partial", [(F_QUAN, "        # storing ordering\n        all_orders = []\n", "        # storing ordering\n        all_orders = []\n        fit_one = partial(fit_feature, X=x_copy[self.quantitative_features], q=self.q, str_nan=self.str_nan)\n"), (F_QUAN, "                fit_feature(\n                    feature, X=x_copy[self.quantitative_features], q=self.q, str_nan=self.str_nan\n                )\n", "                fit_one(feature)\n"), (F_QUAN, "                    partial(\n                        fit_feature,\n                        X=x_copy[self.quantitative_features],\n                        q=self.q,\n                        str_nan=self.str_nan,\n                    ),\n", "                    fit_one,\n")]),
+    B("sequential branch uses keywords in another order", [(F_QUAN, "                    feature, X=x_copy[self.quantitative_features], q=self.q, str_nan=self.str_nan\n", "                    feature, str_nan=self.str_nan, q=self.q, X=x_copy[self.quantitative_features]\n")]),
+    B("sequential branch passes positionally", [(F_QUAN, "                    feature, X=x_copy[self.quantitative_features], q=self.q, str_nan=self.str_nan\n", "                    feature, x_copy[self.quantitative_features], self.q, self.str_nan\n")]),
     B("dispatch test inverted", [(F_TYPE, "        if self.n_jobs <= 1:\n            all_orders = [\n                fit_feature(feature, x_copy[feature], self.str_nan) for feature in self.features\n            ]\n        # asynchronous conversion each feature's value\n        else:\n", "        if self.n_jobs <= 1:\n            all_orders = [\n                fit_feature(feat, x_copy[feat], self.str_nan) for feat in self.features\n            ]\n        # asynchronous conversion each feature's value\n        else:\n")]),
     B("results consumed in a for loop with other names", [(F_QUAN, "        self.values_orders.update({feature: order for (feature, order) in all_orders})", "        for feat, fitted_order in all_orders:\n            self.values_orders.update({feat: fitted_order})")]),
 ]
